@@ -316,18 +316,18 @@ def _loading(order, vi):
     try:
         GM._loaded_grammars.clear()
         if order:
-            custom = parso.load_grammar(path=src)
+            custom = parso.load_grammar(path=src, version=v)
             std = parso.load_grammar(version=v)
         else:
             std = parso.load_grammar(version=v)
-            custom = parso.load_grammar(path=src)
+            custom = parso.load_grammar(path=src, version=v)
         want_std = open(os.path.join(base, 'grammar%s.txt' % v.replace('.', ''))).read()
         if std._hashed != hashlib.sha256(want_std.encode('utf-8')).hexdigest():
             return _no('load_grammar(version=%s) returned a grammar built from another text (custom path loaded %s)' % (
                 v, 'first' if order else 'second'))
         if custom._hashed != hashlib.sha256(open(src).read().encode('utf-8')).hexdigest():
             return _no('load_grammar(path=...) returned a grammar built from another text')
-        if parso.load_grammar(version=v) is not std or parso.load_grammar(path=src) is not custom:
+        if parso.load_grammar(version=v) is not std or parso.load_grammar(path=src, version=v) is not custom:
             return _no('load_grammar is not memoised consistently')
     finally:
         GM._loaded_grammars.clear()
